@@ -6,10 +6,9 @@ CONSTANTS
   Variants = {1, 2}
   MaxLen = 2
   MaxForeign = 2
-  ForeignRows <- MCForeign
+  ForeignRows <- MCForeignMix
   Selectors <- MCSelAll
-  TargetEcu = "tgt"
-  TargetProps <- MCTargetProps
+  Groups <- MCGroups
   Export = FALSE
   Dev_S18_ResetOnSilentRow = FALSE
   Dev_S19_ClientTracksSessionRead = FALSE
@@ -20,4 +19,5 @@ INVARIANT Y1_RepliesAsRecorded
 INVARIANT Y2_IndependentOfOthers
 INVARIANT ContractHolds
 INVARIANT CursorFollowsRecording
+INVARIANT VerdictIsFunctionOfState
 CHECK_DEADLOCK FALSE
